@@ -180,7 +180,8 @@ def run(pid, tier, replay):
                 sig, what = signature(rp)
                 v.violation("%s on the real Muxer: %s (%s)" % (inv, what, d), rp, signature=sig)
             # conformance of the implementation-shaped model (HlsMuxer.tla) on the same traces: evidence only
-            if tag in ("gen", "model", "td", "size", "grid", "cfgs") and "-probe" not in flags:
+            conf_tags = ("model", "td", "size", "cfgs") if tier == "quick" else ("gen", "model", "td", "size", "grid", "cfgs")
+            if tag in conf_tags and "-probe" not in flags:
                 cc = vlib.validate_trace_parallel("MuxTrace", "Trace_mux_conf.cfg", tr, pid, tag=tag + "conf")
                 conf_ok += cc.conforming
                 conf_n += cc.traces
